@@ -1,5 +1,6 @@
 import HavocVerif.Model.Socks
 import HavocVerif.Model.Locks
+import HavocVerif.Model.PortFwd
 /-
   C15 — The SOCKS5 and port-forward relays speak the protocol and move bytes intact.
 -/
@@ -136,5 +137,61 @@ example : validAddr 3 [] ∧ validAddr 1 [127, 0, 0, 1] := by
   · left; exact ⟨rfl, rfl⟩
 example : socksFrontEnd [5, 2, 2, 0, 5, 1, 0, 3, 2, 104, 105, 0, 80, 9] = .connect [5, 0] ⟨1, 3, [104, 105], 80⟩ [9] := by
   decide
+
+section PortForward
+open Havoc.PortFwd
+
+/-! ### reverse port forwards -/
+
+/-- data for a forward that is not in the table is written nowhere: the state does not change -/
+theorem pf_unknown_inert (s : St) (sid : Nat) (data : Bytes) (h : s.find sid = none) :
+    step s (.read sid data) = (s, .refused) := by
+  simp [step, h]
+
+/-- data for a connected forward reaches its target appended to what it has already received:
+    unmodified and in order, whatever the chunking -/
+theorem pf_write_appends (s : St) (f : Fwd) (data : Bytes) (h : s.find f.sid = some f) (hc : f.conn = true) :
+    step s (.read f.sid data) = (s.set { f with got := f.got ++ data }, .written) := by
+  simp [step, h, hc]
+
+/-- a refused dial leaves the entry as it was (still closed), so the next data dials again -/
+theorem pf_refused_dial_keeps_closed (s : St) (f : Fwd) (data : Bytes) (h : s.find f.sid = some f)
+    (hc : f.conn = false) (hu : f.up = false) :
+    step s (.read f.sid data) = (s, .refused) := by
+  simp [step, h, hc, hu]
+
+/-- … and once the target listens the same data is delivered on a fresh connection -/
+theorem pf_dial_when_up (s : St) (f : Fwd) (data : Bytes) (h : s.find f.sid = some f)
+    (hc : f.conn = false) (hu : f.up = true) :
+    step s (.read f.sid data) = (s.set { f with conn := true, got := f.got ++ data, live := f.live + 1 }, .written) := by
+  simp [step, h, hc, hu]
+
+theorem find_filter_ne (l : List Fwd) (sid : Nat) : (l.filter (·.sid != sid)).find? (·.sid == sid) = none := by
+  induction l with
+  | nil => rfl
+  | cons a l ih =>
+    simp only [List.filter_cons]
+    split
+    · rename_i hne
+      simp only [List.find?_cons]
+      have : (a.sid == sid) = false := by simpa using hne
+      simp [this, ih]
+    · exact ih
+
+/-- after the agent has reported the removal the forward is gone from the table -/
+theorem pf_removed_gone (s : St) (sid : Nat) : ((step s (.remove sid)).1).find sid = none ∨ s.find sid = none := by
+  cases h : s.find sid with
+  | none => right; rfl
+  | some f =>
+    left
+    have : (step s (.remove sid)).1.fwds = s.fwds.filter (·.sid != sid) := by simp [step, h]
+    simp only [St.find, this]
+    exact find_filter_ne _ _
+
+/- a target that is down at first, comes up, gets both chunks of the second attempt in order; removal closes -/
+example : (run [.open_ 7 false, .read 7 [1, 2], .up 7, .read 7 [3], .read 7 [4, 5], .remove 7]).targets.map (fun f => (f.got, f.live)) = [([3, 4, 5], 0)] := by
+  decide
+
+end PortForward
 
 end Havoc.C15
